@@ -114,6 +114,9 @@ class MuxPeer(object):
         self.discards.append((now, d['tag'], d['reason']))
         self.server_log.append({'time': now, 'conn': self.conn.id, 'discard': d['tag'], 'frame_tag': tag,
                                 'seq': len(self.server_log)})
+        if self.script.get('ack_discards') and d['tag'] in self.outstanding:
+          # the server acknowledges the discard: an Rdiscarded frame (type -66) carrying the discarded request's tag
+          self.net.post('frame', self.conn, M.frame(-66, d['tag'], b''), {'tag': d['tag'], 'discard_ack': d['tag']})
       elif t == M.T_DISPATCH:
         rec = {'time': now, 'conn': self.conn.id, 'tag': tag, 'raw': fr, 'seq': len(self.server_log), 'addr': self.conn.addr,
                'dup_tag': tag in self.outstanding}
